@@ -40,57 +40,36 @@ WITNESSES = ["disjoint-ctx-offset", "disjoint-gpos", "disjoint-with-lookups", "d
 
 # ---------------------------------------------------------------------------
 # (M) and generation
-def _gen(chk, cfg, out, errs):
-    try:
-        r = chk.tlc("MC_Merge", cfg=cfg, label=cfg, workers=4, timeout=900)
-        out[cfg] = [json.loads(p[0]) for p in r.prints.get("GEN", [])]
-    except Exception as e:  # re-raised in the main thread
-        errs.append(e)
+def generate(chk):
+    """TLC emits the lists of abstract fonts for (R): all ordered lists of 2, 3 and 4 fonts of the gen families."""
+    cfg = "MC_Merge_gen" if chk.tier == "quick" else "MC_Merge_gen_thorough"
+    r = chk.tlc("MC_Merge", cfg=cfg, label=cfg, workers=6, timeout=1200)
+    by_len = {2: [], 3: [], 4: []}
+    for p in r.prints.get("GEN", []):
+        fonts = json.loads(p[0])
+        by_len[len(fonts)].append(fonts)
+    lists = [by_len[2], by_len[3], by_len[4]]
+    if min(len(l) for l in lists) < 1000:
+        raise MachineryError("%s emitted only %s lists" % (cfg, [len(l) for l in lists]))
+    chk.notes["generated_lists"] = {"pairs": len(lists[0]), "triples": len(lists[1]), "quadruples": len(lists[2])}
+    return lists
 
 
 def _mc(chk, cfg, out, errs, workers):
     try:
-        r = chk.tlc("MC_Merge", cfg=cfg, label=cfg, workers=workers, timeout=2400)
-        out[cfg] = r
-    except Exception as e:
+        out[cfg] = chk.tlc("MC_Merge", cfg=cfg, label=cfg, workers=workers, timeout=3000)
+    except Exception as e:  # re-raised in the main thread
         errs.append(e)
 
 
-def start_generation(chk):
-    """TLC emits the lists of abstract fonts for (R)."""
-    out, errs = {}, []
-    cfgs = ["MC_Merge_gen2" if chk.tier == "quick" else "MC_Merge_gen2_thorough", "MC_Merge_gen3", "MC_Merge_gen4"]
-    ths = []
-    for c in cfgs:
-        th = threading.Thread(target=_gen, args=(chk, c, out, errs))
-        th.start()
-        ths.append(th)
-        time.sleep(0.3)  # chk.tlc numbers its scratch files with a plain counter
-    for th in ths:
-        th.join()
-    if errs:
-        raise errs[0]
-    lists = []
-    for c in cfgs:
-        if len(out[c]) < 1000:
-            raise MachineryError("%s emitted only %d lists" % (c, len(out[c])))
-        lists.append(out[c])
-    chk.notes["generated_lists"] = {c: len(out[c]) for c in cfgs}
-    return lists
-
-
 def start_model_checking(chk):
-    """The exhaustive runs, in the background while the real merger is driven."""
+    """The exhaustive run, in the background while the real merger is driven."""
     out, errs = {}, []
     main = "MC_Merge" if chk.tier == "quick" else "MC_Merge_thorough"
-    plan = [(main, 6), ("MC_Merge3", 3), ("MC_Merge_neg", 2), ("MC_Merge_idf", 1)]
-    ths = []
-    for cfg, w in plan:
-        th = threading.Thread(target=_mc, args=(chk, cfg, out, errs, w))
-        th.start()
-        ths.append(th)
-        time.sleep(0.3)
-    return {"threads": ths, "out": out, "errs": errs, "main": main}
+    th = threading.Thread(target=_mc, args=(chk, main, out, errs, 5 if chk.tier == "quick" else 8))
+    th.start()
+    time.sleep(0.5)  # chk.tlc numbers its scratch files with a plain counter
+    return {"threads": [th], "out": out, "errs": errs, "main": main}
 
 
 def finish_model_checking(chk, h):
@@ -98,30 +77,27 @@ def finish_model_checking(chk, h):
         th.join()
     if h["errs"]:
         raise h["errs"][0]
-    out = h["out"]
-    wit = set()
-    for cfg in (h["main"], "MC_Merge3", "MC_Merge_idf"):
-        r = out[cfg]
-        chk.log("%s: %d distinct states, %d transitions, depth %d (%.0fs)" % (cfg, r.distinct, r.generated, r.depth, r.wall))
-        wit |= {p[0] for p in r.prints.get("WIT", [])}
+    r = h["out"][h["main"]]
+    chk.log("%s: %d distinct states, %d transitions, depth %d (%.0fs)" % (h["main"], r.distinct, r.generated, r.depth, r.wall))
+    wit = {p[0] for p in r.prints.get("WIT", [])}
     missing = [w for w in WITNESSES if w not in wit]
     if missing:
         raise MachineryError("MC_Merge: situations never reached (vacuous antecedents): %s" % missing)
-    neg = sorted({p[0] for p in out["MC_Merge_neg"].prints.get("NEG", [])})
+    neg = sorted({p[0] for p in r.prints.get("NEG", [])})
     if neg != NEG_BUGS:
-        raise MachineryError("MC_Merge_neg: wrong variants reported %s, expected %s" % (neg, NEG_BUGS))
+        raise MachineryError("MC_Merge: wrong stage variants reported %s, expected %s" % (neg, NEG_BUGS))
     chk.notes["spec_mutants_distinguished"] = neg
     chk.notes["model_witnesses"] = sorted(wit)
-    # the threads updated the counters concurrently: recompute them from the (atomic) run list
-    chk.states = sum(r["distinct"] for r in chk.tlc_runs)
-    chk.transitions = sum(r["generated"] for r in chk.tlc_runs)
+    # the thread updated the counters concurrently with the main thread: recompute them from the run list
+    chk.states = sum(x["distinct"] for x in chk.tlc_runs)
+    chk.transitions = sum(x["generated"] for x in chk.tlc_runs)
 
 
 # ---------------------------------------------------------------------------
 # cases
 def model_cases(chk, lists):
     rng = random.Random("c18-model-%d" % chk.seed)
-    quota = [1500, 500, 250] if chk.tier == "quick" else [len(lists[0]), len(lists[1]), 2000]
+    quota = [900, 300, 150] if chk.tier == "quick" else [len(lists[0]), len(lists[1]), 2000]
     cases = []
     for ls, q in zip(lists, quota):
         idx = list(range(len(ls)))
@@ -131,7 +107,7 @@ def model_cases(chk, lists):
             fonts = ls[k]
             flavour = "ttf" if (k + chk.seed) % 2 == 0 else "cff"
             cases.append({"kind": "model", "label": "model:%d/%s/%s" % (len(fonts), common.digest(fonts), flavour), "abstract": fonts,
-                          "flavour": flavour, "upem": 1000 if k % 3 else 2048})
+                          "flavour": flavour, "upem": 2048 if len(fonts) == 3 else 1000})
     return cases
 
 
@@ -180,7 +156,8 @@ def corpus_pool(chk):
         jobs.append((common.rel(p), p))
     d = os.path.join(chk.work, "ttx")
     os.makedirs(d, exist_ok=True)
-    for k, (p, b) in enumerate(fonts.compiled_ttx_fonts()):
+    # the compiled whole-font TTX files of the corpus join the pool in the thorough tier (compiling them takes minutes)
+    for k, (p, b) in enumerate(fonts.compiled_ttx_fonts() if chk.tier == "thorough" else []):
         q = os.path.join(d, "t%04d.%s" % (k, "otf" if b[:4] == b"OTTO" else "ttf"))
         with open(q, "wb") as f:
             f.write(b)
@@ -201,7 +178,7 @@ def corpus_cases(chk, pool):
     rng = random.Random("c18-corpus-%d" % chk.seed)
     groups = {k: sorted(v, key=lambda x: x["label"]) for k, v in pool.items() if len(v) >= 2}
     chk.notes["corpus_groups"] = {"%d/%s" % k: len(v) for k, v in sorted(groups.items())}
-    budget = 170 if chk.tier == "quick" else 1300
+    budget = 130 if chk.tier == "quick" else 1300
     cases = []
     keys = sorted(groups)
     # every group gets a share; big homogeneous groups (the AOTS suite) do not crowd out the others
@@ -232,6 +209,19 @@ def corpus_cases(chk, pool):
 
 # ---------------------------------------------------------------------------
 # worker
+_REALIZED = {}
+
+
+def _realize_cached(af_json, flavour, upem):
+    """the gen families have few distinct fonts: a worker realises each (font, flavour, upem) once"""
+    from . import c18_models as M
+
+    key = (af_json, flavour, upem)
+    if key not in _REALIZED:
+        _REALIZED[key] = M.realize(json.loads(af_json), flavour, upem)
+    return _REALIZED[key]
+
+
 def _job(case):
     """Prepare the input files of one case in its own directory, run it, clean up."""
     import logging
@@ -249,7 +239,7 @@ def _job(case):
                 for i, af in enumerate(case["abstract"]):
                     p = os.path.join(d, "in%d.%s" % (i, "ttf" if case["flavour"] == "ttf" else "otf"))
                     with open(p, "wb") as f:
-                        f.write(M.realize(af, case["flavour"], case["upem"], family="VerifC18n%d" % i))
+                        f.write(_realize_cached(json.dumps(af, sort_keys=True), case["flavour"], case["upem"]))
                     paths.append(p)
             elif case["kind"] == "rich":
                 rng = random.Random("%s|%s" % (case["seed"], case["label"]))
@@ -387,7 +377,7 @@ def judge_results(chk, results):
     order = sorted(range(len(traces)), key=lambda i: -len(traces[i]["m"]["names"]))
     send = [{k: v for k, v in traces[i].items() if k not in ("label", "kind") and not k.startswith("_")} for i in order]
     back = {id(s): traces[i] for s, i in zip(send, order)}
-    rej = chk.judge("Trace_C18", send, chunk=400, multi=True, timeout=1800, workers=16)
+    rej = chk.judge("Trace_C18", send, chunk=1200 if chk.tier == "quick" else 2500, multi=True, timeout=2400, workers=16)
     for s, clauses in rej:
         t = back[id(s)]
         for clause in clauses:
@@ -417,16 +407,23 @@ def run(chk):
                 "private-use blocks); distinct by (inputs, flavour/variant); non-trivial = at least one glyph renamed and either a "
                 "character supported by two inputs or (disjoint character sets, an input with layout lookups, HarfBuzz probes compared)")
     t0 = time.time()
-    lists = start_generation(chk)
+    cpu = lambda: sum(os.times()[:4])
+    c0 = cpu()
+    lists = generate(chk)
     chk.log("TLC exported %s lists of abstract fonts (%.0fs)" % ([len(l) for l in lists], time.time() - t0))
-    mc = start_model_checking(chk)
+    dev_no_mc = os.environ.get("VERIF_C18_NO_MC") == "1"  # development aid (mutant triage): (M) does not depend on /repo
+    mc = None if dev_no_mc else start_model_checking(chk)
     pool = corpus_pool(chk)
     cases = model_cases(chk, lists) + rich_cases(chk) + corpus_cases(chk, pool)
     chk.log("driving the real merger on %d cases" % len(cases))
     results = drive(chk, cases)
     attach_cases(results, cases)
-    chk.log("driven in %.0fs" % (time.time() - t0))
-    finish_model_checking(chk, mc)
+    chk.log("driven in %.0fs wall (cpu so far incl. children %.0fs)" % (time.time() - t0, cpu() - c0))
+    if mc is not None:
+        finish_model_checking(chk, mc)
+    else:
+        chk.notes["model_checking"] = "SKIPPED (VERIF_C18_NO_MC=1): not a complete check"
+    chk.log("cpu so far incl. children %.0fs" % (cpu() - c0))
     judge_results(chk, [dict(r) for r in results])
     chk.exhaustive = False
     chk.assumptions += [
